@@ -72,8 +72,8 @@ def classify(doc, prep, o):
 
 def run_shard(ctx):
     d = drive.Driver(ctx, feat, flags="all4", styles=("mixed", "runs", "dups", "regs"), classify=classify)
-    d.loop(1500, 50000)
-    hexh_stratum(ctx, d, ctx.share(64, 2000))
+    d.loop(2000, 250000)
+    hexh_stratum(ctx, d, ctx.share(96, 8000))
 
 
 def replay(ctx, case):
